@@ -546,18 +546,10 @@ class CallGraph:
                     _seen.add(key)
                     add(self.function_values_deep(self.X.return_term(g), g, depth + 1, _seen))
                 return
-            for y in x[1:]:
-                if isinstance(y, tuple):
-                    if y and isinstance(y[0], str):
-                        visit(y, False)
-                    else:
-                        for z in y:
-                            if isinstance(z, tuple) and z and isinstance(z[0], str):
-                                visit(z, False)
-                            elif isinstance(z, tuple):
-                                for w in z:
-                                    if isinstance(w, tuple) and w and isinstance(w[0], str):
-                                        visit(w, False)
+            from .terms import children
+
+            for y in children(x):
+                visit(y, False)
 
         visit(t, False)
         return out
